@@ -78,6 +78,9 @@ class Expander(object):
         if name in busy or depth > self.max_depth or node is None:
             return e
         defs = list(reaching_defs(self.g, node, name))
+        if node.kind == "for":
+            # the iterable of a loop is evaluated before the loop (re)binds its own target
+            defs = [d for d in defs if d.id != node.id]
         if len(defs) != 1:
             return e
         d = defs[0]
@@ -105,7 +108,7 @@ class Expander(object):
             return e
         if d.kind == "for":
             it, enum = strip_order_keeping(st.iter)
-            itx = self._x(copy.deepcopy(it), d, depth + 1, busy | set([name]))
+            itx = self._x(copy.deepcopy(it), d, depth + 1, busy)      # the iterable sees the binding from before the loop
             t = st.target
             if isinstance(t, ast.Name) and t.id == name:
                 return _each(itx)
